@@ -258,7 +258,17 @@ def run(prop, tier, seed, replay):
     gnz = ck.driver("GenResample", nz_reqs)
     snz = ck.driver("SpecDriver", nz_reqs)
     for i, (cross, ref, unk, B, M) in enumerate(nz_cases):
+        # the same autocorrelation data serve several estimates (one reference sample, many unknown bins): the estimate
+        # compared with the model is the SECOND one computed from these operands, and the operands must be left as they were
+        before = [None if c is None else (c.data.copy(), c.samples.copy()) for c in (cross, ref, unk)]
+        RedshiftData.from_corrdata(cross, ref, unk)
         rd = RedshiftData.from_corrdata(cross, ref, unk)
+        changed = [nm for nm, c, b0 in zip(("cross", "ref", "unk"), (cross, ref, unk), before) if c is not None
+                   and not (np.array_equal(c.data, b0[0], equal_nan=True) and np.array_equal(c.samples, b0[1], equal_nan=True))]
+        if changed:
+            ck.add_violation(f"RedshiftData.from_corrdata changes its operands in place ({', '.join(changed)}): a second estimate "
+                             "from the same autocorrelation data differs from the first", {"kind": "nz", "request": nz_reqs[i]})
+            continue
         impl = [*rd.data, *rd.samples.ravel()]
         ck.count(f"nz ref={ref is not None} unk={unk is not None}")
         ck.case({"kind": "nz", "request": nz_reqs[i][:200]} if i < 2 else None, nz_reqs[i])
